@@ -46,6 +46,12 @@ var commonAssumptions = []string{
 
 func init() {
 	register(&Def{
+		ID: "C15", Level: "exploration", MinSigs: 300,
+		Rule:        "(1) PRNG-drawn payloads (3 forwarding types x fee lists x passthrough 0..4 KiB) are built through the module's public constructors, marshalled, parsed back: proto-equal payload, usable attributes, and equal to the parse of the harness' independently hand-rendered memo of the same spec; (2) every single-point mutation of every template memo goes through the parser entry point with an acceptance predicate computed from the mutation alone (certainly-malformed, enum numbers/names, type URLs: two-sided; other mutations: either) and a purity check (same memo parsed three times on two parser instances interleaved with other memos: identical result or identical error text); (3) 8 goroutines parse a shared corpus on shared and private parser instances and must reproduce the sequential results. distinct = (template, site, mutation kind, expectation, accepted) tuples and round-trip classes",
+		Assumptions: append([]string{"a protocol identifier is 'supported' at parser level when it is a named, non-zero enum value (IBC included; the missing controller is C05's subject); mismatched (id, attribute type) pairs are C05's subject", "duplicate keys and other mutations without a fixed meaning are held to purity only"}, commonAssumptions...),
+		Run:         withLab(world.Config{}, CheckC15),
+	})
+	register(&Def{
 		ID: "C13", Level: "exploration", MinSigs: 40,
 		Rule:        "ledgers of 0..~150 entries are grown by C12's mixed histories (entries are updated many times, not only inserted) over 4 source channels; at checkpoints the exported statistics are the ground truth and, for every protocol filter x {amounts, counts} x {by source, by destination}: next-key walks with limits 1,2,3,n-1,n/2,random,n,n+1,1000 forward and reverse, offset walks, count_total, the unpaginated listing - each must visit exactly the matching entries once (multiset equality, reverse = mirror) - plus direct lookups of every present key and of absent neighbours (other denom, other channel, other counterparty). distinct = (listing, size bucket, limit relation, direction) and lookup classes",
 		Assumptions: append([]string{"ground truth = exported genesis, itself tied to the observed transfers by C12's shadow ledger"}, commonAssumptions...),
